@@ -1449,6 +1449,12 @@ fn wake_send_waiters<T>(waiters: &mut LinkedList<SendWaitQueueEntry<T>>) {''',
      'expect': {'C17': ['C17.R5']}},
     {'name': 'seed-set-wakes-waiters-one-lock-at-a-time', 'patch': 'seeded/C14-set-wakes-waiters-one-lock-at-a-time/patch.diff',
      'expect': {'C14': ['C14.W']}},
+    {'name': 'seed-timer-reset-in-place', 'patch': 'seeded/C15-timer-reset-extends-deadline-in-place/patch.diff',
+     'expect': {'C15': ['C15.R7']}},
+    {'name': 'seed-receiver-stream-uncounted-handle', 'patch': 'seeded/C08-receiver-stream-builds-uncounted-handle/patch.diff',
+     'expect': {'C08': ['C08.R2'], 'C11': ['C11.R5']}},
+    {'name': 'seed-try-receive-all-wakes-instead-of-refill', 'patch': 'seeded/C09-try-receive-all-wakes-senders-instead-of-refilling/patch.diff',
+     'expect': {'C09': ['C09.R2']}},
     {'name': 'seed-first-poll-enqueues-under-second-lock', 'patch': 'seeded/C06-first-poll-enqueues-under-second-lock/patch.diff',
      'expect': {'C06': ['C06.W'], 'C05': ['C05.W']}},
 ]
@@ -1768,6 +1774,11 @@ impl<'a, MutexType, T> FusedFuture for ChannelReceiveFuture<'a, MutexType, T> {'
     {'name': 'benign-refactor-RF29-semaphore-first-poll-one-lock', 'props': ALLP + ['C16'], 'patch': 'benign/RF29/patch.diff'},
     {'name': 'benign-refactor-RF30-stream-fast-path-closed-verdict', 'props': ALLP + ['C16'], 'patch': 'benign/RF30/patch.diff'},
     {'name': 'benign-refactor-RF31-last-sender-leaves-close-to-receiver', 'props': ALLP + ['C16'], 'patch': 'benign/RF31/patch.diff'},
+    {'name': 'benign-feature-RF32-mutex-future-try-acquire', 'props': ALLP + ['C16'], 'patch': 'benign/RF32/patch.diff'},
+    {'name': 'benign-feature-RF33-receiver-stream-by-ref', 'props': ALLP + ['C16'], 'patch': 'benign/RF33/patch.diff'},
+    {'name': 'benign-feature-RF34-oneshot-with-value', 'props': ALLP + ['C16'], 'patch': 'benign/RF34/patch.diff'},
+    {'name': 'benign-feature-RF35-state-broadcast-send-replace', 'props': ALLP + ['C16'], 'patch': 'benign/RF35/patch.diff'},
+    {'name': 'benign-feature-RF36-timer-reset', 'props': ALLP + ['C16'], 'patch': 'benign/RF36/patch.diff'},
     {'name': 'benign-unrelated-additions', 'props': ALLP, 'edits': [
         {'file': 'src/sync/semaphore.rs',
          'old': '''    /// Returns the amount of permits that are available on the semaphore
